@@ -201,7 +201,7 @@ impl PageTree {
         if depth == 0 {
             bail!("page tree depth exeeded");
         }
-        let mut pos = 0;
+        let mut pos: u32 = 0;
         for &kid in &self.kids {
             let node = match resolve.get(kid) {
                 Ok(node) => node,
@@ -211,16 +211,18 @@ impl PageTree {
             };
             match *node {
                 PagesNode::Tree(ref tree) => {
-                    if (pos .. pos + tree.count).contains(&page_nr) {
+                    // the counts come from the file and need not add up within 32 bits
+                    let end = pos.saturating_add(tree.count);
+                    if (pos .. end).contains(&page_nr) {
                         return tree.page_limited(resolve, page_nr - pos, depth - 1);
                     }
-                    pos += tree.count;
+                    pos = end;
                 }
                 PagesNode::Leaf(ref _page) => {
                     if pos == page_nr {
                         return Ok(PageRc(node));
                     }
-                    pos += 1;
+                    pos = pos.saturating_add(1);
                 }
             }
         }
